@@ -287,9 +287,97 @@ def _bootstrap_rules(ctx):
         ctx.arg_origin('e', d, BOOT, 1, require=['p#*'], desc='(db dir) <- the target directory of the download')
 
 
+def _round2_rules(ctx):
+    """Rules added after the second round of seeds."""
+    R = ctx.report
+    ws = ctx.ws
+    from engine import find_guards
+    # (f) what a failed or hostile download leaves behind
+    R.clause('f', 'unexpected files are removed on every exit of the download; archive entries cannot leave the unpack directory; every manifest entry is hashed')
+    d = ctx.try_fn('f', IAD + 'download_unpack')
+    RMU = [UDF + 'ExpectedFilesAfterDownload::remove_unexpected_files']
+    DLB = [IAD + 'batch_download_unpack']
+    if d is not None:
+        def steps(view, pats):
+            out = []
+            root0 = getattr(view, '_orig', view).root()
+            for c in view.body.calls():
+                if any(glob_match(q, n) for q in pats for n in c.names()):
+                    out.append(c)
+                    continue
+                for n in c.names():
+                    hit = False
+                    for h in ws.by_name.get(n, []):
+                        if h.unit.crate == root0.unit.crate and h.root() is not root0 and h.kind in ('fn', 'assoc_fn') and ctx.closure_sites(h, pats, depth=2):
+                            out.append(c)
+                            hit = True
+                            break
+                    if hit:
+                        break
+            return out
+        # the body in which the download step and the clean-up meet (descending while one helper holds both)
+        view = d.logic()
+        for _ in range(3):
+            dl, rm = steps(view, DLB), steps(view, RMU)
+            both = None
+            if dl and rm and all(not any(glob_match(q, n) for q in DLB + RMU for n in c.names()) for c in dl + rm):
+                for c in dl:
+                    if any(c is c2 for c2 in rm):
+                        for n in c.names():
+                            for h in ws.by_name.get(n, []):
+                                if h.kind in ('fn', 'assoc_fn') and ctx.closure_sites(h, DLB, depth=2) and ctx.closure_sites(h, RMU, depth=2):
+                                    both = h
+            if both is None:
+                break
+            view = ctx.view(both).logic()
+        body = view.body
+        inst = 'download_unpack: once the downloads were started, every exit (success or failure) has run remove_unexpected_files'
+        if not dl or not rm:
+            R.violation('f', 'R2', inst, 'download:cleanup-on-every-exit', 'download steps %d, clean-up steps %d in %s' % (len(dl), len(rm), fn_short(view.name)), d.loc())
+        else:
+            removed = {(c.bb, c.target) for c in rm}
+            rets = {bi for bi, b_ in enumerate(body.blocks) if b_.term[0] == 'ret' and not b_.cleanup}
+            leak = [c.line for c in dl if c.target is not None and (rets & body.reach([c.target], removed=removed))]
+            if leak:
+                R.violation('f', 'R2', inst, 'download:cleanup-on-every-exit', 'a return is reachable after the download step (line %s) without the clean-up: a failed download leaves '
+                            'the unexpected entries an archive brought into immutable/' % leak, view.loc())
+            else:
+                R.ok('f', 'R2', inst, '', view.loc())
+    # archives are unpacked with the confining API only: tar::Entry::unpack writes wherever the entry path says (`..`, absolute paths)
+    unconfined, confined = [], 0
+    for f0 in ws.fns:
+        # the restoring side (the aggregator unpacks entries of archives it has just built itself, to a fixed scratch path)
+        if f0.unit.tag != 'lib' or not f0.unit.crate.startswith('mithril_client'):
+            continue
+        for (cal, res, ln) in f0.calls:
+            for n in (cal, res):
+                if not n:
+                    continue
+                if n.startswith('tar::') and n.endswith('::unpack') and 'Entry' in n:
+                    unconfined.append('%s line %s' % (fn_short(f0.name), ln))
+                if n.startswith('tar::') and (n.endswith('Archive::unpack') or n.endswith('::unpack_in') or 'Archive<R>::unpack' in n):
+                    confined += 1
+    inst = 'archives are unpacked through tar::Archive::unpack / Entry::unpack_in only (entry paths confined to the unpack directory)'
+    if unconfined:
+        R.violation('f', 'R3', inst, 'unpack:confined', 'tar::Entry::unpack (no path confinement) is called at: %s' % sorted(set(unconfined))[:4], None)
+    elif confined:
+        R.ok('f', 'R3', inst, '%d confining unpack site(s), 0 unconfined' % confined)
+    else:
+        R.missing('f', 'no tar unpack call found in the workspace')
+    # every entry of the manifest is hashed and compared (no entry is skipped)
+    MANV = 'mithril_cardano_node_internal_database::entities::ancillary_files_manifest::AncillaryFilesManifest::verify_data'
+    mv = ctx.try_fn('f', MANV)
+    if mv is not None:
+        ctx.guard_gate('f', mv, 'every manifest entry: computed hash == listed hash',
+                       lambda g: g.op in ('Eq', 'Ne') and (has(g.a_orig | g.b_orig, 'call:*compute_file_hash') or has(g.a_orig | g.b_orig, 'call:*::finalize') or
+                                                             has(g.a_orig | g.b_orig, 'call:*hex::encode*')),
+                       {'eq'}, key='manifest:every-entry-hashed', per_item=True)
+
+
 _run_c19 = run
 
 
 def run(ctx):  # noqa: F811
     _run_c19(ctx)
     _bootstrap_rules(ctx)
+    _round2_rules(ctx)
